@@ -3,58 +3,8 @@
 From PV Require Import Base.Prelude Model.LeaseBase Model.Lease.
 Open Scope N_scope.
 
-(* a valid prefix that is not IPv4: newSubnet panics (As4 on an IPv6 address / nil CIDRMask) *)
-Definition lan_v6 (o : option subnetcfg) : bool :=
-  match o with
-  | Some c => pvalid (s_lan c) && negb (is4 (paddr (s_lan c)))
-  | None => false
-  end.
-
-(* does the validation loop of loadByteArray reach [net1.LAN] / [net2.LAN] with a nil subnet?
-   [n1lan]/[n2lan]: the LAN of the validated subnets when present.  Returns 0 (no), 2 (nil net1), 3 (nil net2). *)
-Fixpoint nil_deref (captured : sess) (n1lan n2lan : option prefix) (rs : list lease_rec) : N :=
-  match rs with
-  | [] => 0
-  | v :: rest =>
-      if negb (r_state v =? 2)%Z || negb (avalid (r_ip v)) then nil_deref captured n1lan n2lan rest
-      else match n1lan with
-      | None => 2
-      | Some l1 =>
-          if negb (contains l1 (r_ip v)) then nil_deref captured n1lan n2lan rest
-          else match r_cid v with
-          | [] => nil_deref captured n1lan n2lan rest
-          | _ => if captured (r_mac v)
-                 then match n2lan with None => 3 | Some _ => nil_deref captured n1lan n2lan rest end
-                 else nil_deref captured n1lan n2lan rest
-          end
-      end
-  end.
-
-Definition lan_of (o : option subnetcfg) : option prefix :=
-  match o with
-  | Some c => Some (pmasked (s_lan c))
-  | None => None
-  end.
-
-(* 0: no panic class; 1: IPv6 LAN in the file; 2: leases but no net1; 3: captured lease but no net2.
-   Classes 2/3 are only reached when both newSubnet calls returned without error. *)
-Definition panic_class (captured : sess) (d : doc) : N :=
-  match opt_subnet (d_net1 d) with
-  | Panic => 1
-  | Ok _ =>
-      match opt_subnet (d_net2 d) with
-      | Panic => 1
-      | Ok _ => nil_deref captured (lan_of (d_net1 d)) (lan_of (d_net2 d)) (d_leases d)
-      | _ => 0
-      end
-  | _ => 0
-  end.
-
-Definition known_C18_panic (captured : sess) (i : input) : N :=
-  match i with
-  | Doc d => panic_class captured d
-  | _ => 0
-  end.
+(* The three panic classes of the unrepaired code (nil net1 / nil net2 dereference in loadByteArray, IPv6 lan in
+   newSubnet) were removed by fix commits in /repo (DESIGN 11 #23); no panic class is left: C18_new_total. *)
 
 (* the loaded net1 is wider than the configured home LAN (configChanged compares LAN.Addr() only,
    not the prefix length), so a binding outside the home LAN passes [net1.LAN.Contains] *)
